@@ -64,6 +64,7 @@ func (t *Writer) emit(m M) {
 	}
 	t.w.Write(b)
 	t.w.WriteByte('\n')
+	t.w.Flush() // a crash of the process must not lose the lines that lead to it
 	t.Lines++
 }
 
